@@ -106,6 +106,10 @@ func (state *State) AddBlock(hash *bitcoin.Hash32, block wire.Block) bool {
 
 	for _, request := range state.blocksRequested {
 		if request.hash.Equal(hash) {
+			if request.block != nil {
+				// Replacing a block that was already received, so don't count it twice.
+				state.pendingBlockSize -= request.size
+			}
 			request.block = block
 			request.size = block.SerializeSize()
 			state.pendingBlockSize += request.size
